@@ -7,7 +7,7 @@ use super::sendbody::send_body_flow;
 use crate::engine::{guarded, pattern, Report, Tier, Violation};
 use crate::refmodel::chunked::decode_strict;
 
-pub const RULE: &str = "every output length n in 0..=3*10248+64 (thorough: 0..=10*10248+64) plus boundary set {k*10248+d, 16^j+d}: m = calculate_max_input(n) on the real SendBody flow, then the real write(input[..m], out[..n]); chunked and length-delimited bodies; for length-delimited bodies additionally Content-Length {0,1,100,20000} x already-accounted {0,1,half,all} x n up to 70000 (the advertised size is n whatever remains). distinct = distinct (mode, m>0, chunks emitted, hex digits of last chunk) classes";
+pub const RULE: &str = "every output length n in 0..=3*10248+64 (thorough: 0..=10*10248+64) plus boundary set {k*10248+d, 16^j+d}: m = calculate_max_input(n) on the real SendBody flow, then the real write(input[..m], out[..n]); chunked and length-delimited bodies; for length-delimited bodies additionally Content-Length {0,1,100,20000} x already-accounted {0,1,half,all} x n up to 70000 (the advertised size is n whatever remains); the same check from non-initial states: after an earlier write of {1,3,17} input bytes into a buffer of 0..=24 bytes in the same SendBody state, and for a chunked body selected by a mixed-case Transfer-Encoding: Chunked next to a Content-Length header, n in 0..=300 u 4090..=4110 u 10240..=10270. distinct = distinct (mode, m>0, chunks emitted, hex digits of last chunk) classes";
 
 const CHUNK: usize = 10 * 1024 + 8;
 
@@ -31,10 +31,24 @@ fn ns(tier: Tier) -> Vec<usize> {
 
 /// (advertised m, Some((key, what)) on failure, class)
 fn one(n: usize, chunked: bool) -> (usize, Option<(String, String)>, String) {
+    one_from(n, chunked, "", None)
+}
+
+/// `variant`: "" = POST with default chunked framing / Content-Length n+5; "te-mixed-case+cl" = POST carrying
+/// `Transfer-Encoding: Chunked` next to `Content-Length: 5` (chunked wins, C02/C03). `prior`: an earlier
+/// write(input length, buffer length) in the same SendBody state - the property holds from every state.
+fn one_from(n: usize, chunked: bool, variant: &str, prior: Option<(usize, usize)>) -> (usize, Option<(String, String)>, String) {
     let r = guarded(|| {
-        let mut f = send_body_flow(if chunked { None } else { Some(n as u64 + 5) });
+        let mut f = match variant {
+            "te-mixed-case+cl" => super::sendbody::send_body_flow_cfg(&crate::driver::ReqCfg::new("POST", "1.1", "http://a.test/p").orig("transfer-encoding", "Chunked").orig("content-length", "5")),
+            _ => send_body_flow(if chunked { None } else { Some(n as u64 + 5 + prior.map(|p| p.0 as u64).unwrap_or(0)) }),
+        };
+        if let Some((i0, b0)) = prior {
+            let mut out0 = vec![0u8; b0];
+            let _ = f.write(&pattern(i0), &mut out0);
+        }
         let m = f.calculate_max_input(n);
-        if chunked != f.is_chunked() {
+        if variant.is_empty() && chunked != f.is_chunked() {
             return (m, Some(("harness".to_string(), "is_chunked() disagrees with the request framing".to_string())), String::new());
         }
         if m > n {
@@ -188,6 +202,40 @@ pub fn run(tier: Tier) -> Report {
             }
         }
     }
+    // from non-initial states: after an earlier write with more input than its (small) buffer can take,
+    // and for a chunked body selected by a mixed-case Transfer-Encoding next to a Content-Length
+    let small_ns: Vec<usize> = (0..=300usize).chain(4090..=4110).chain(10_240..=10_270).collect();
+    let mut extra_jobs: Vec<(usize, bool, &'static str, Option<(usize, usize)>)> = Vec::new();
+    for &n in &small_ns {
+        extra_jobs.push((n, true, "te-mixed-case+cl", None));
+        for i0 in [1usize, 3, 17] {
+            for b0 in 0..=24usize {
+                extra_jobs.push((n, true, "", Some((i0, b0))));
+                if b0 % 6 == 0 {
+                    extra_jobs.push((n, false, "", Some((i0, b0))));
+                }
+            }
+        }
+    }
+    let res: Vec<(usize, bool, &'static str, Option<(usize, usize)>, Option<(String, String)>)> = extra_jobs
+        .par_iter()
+        .map(|&(n, chunked, variant, prior)| {
+            let (_, f, _) = one_from(n, chunked, variant, prior);
+            (n, chunked, variant, prior, f)
+        })
+        .collect();
+    rep.extra("from_non_initial_states", json!(res.len()));
+    for (n, chunked, variant, prior, fail) in res {
+        rep.evaluations += 1;
+        rep.transitions += 3;
+        if let Some((k, what)) = fail {
+            let ctx = match (variant, prior) {
+                ("", Some((i0, b0))) => format!(" [after an earlier write({} bytes, {}-byte buffer) in the same state]", i0, b0),
+                (v, _) => format!(" [request variant {}]", v),
+            };
+            rep.violation(Violation { key: format!("C18:{}:{}", if chunked { "chunked" } else { "sized" }, k), ord: 80_000_000 + n as u64, what: format!("{}{}", what, ctx), replay: json!({"n": n, "chunked": chunked, "variant": variant, "prior": prior.map(|p| json!([p.0, p.1]))}) });
+        }
+    }
     rep.guard("some n has a positive advertised maximum", false);
     rep.extra("n_values_per_mode", json!(ns.len()));
     rep.extra("n_max", json!(ns.last()));
@@ -202,6 +250,11 @@ pub fn replay(v: &Value) -> Result<Option<String>, String> {
     }
     let n = v["n"].as_u64().ok_or("n")? as usize;
     let chunked = v["chunked"].as_bool().ok_or("chunked")?;
+    if v.get("variant").map(|x| x.is_string()).unwrap_or(false) {
+        let prior = v["prior"].as_array().map(|a| (a[0].as_u64().unwrap_or(0) as usize, a[1].as_u64().unwrap_or(0) as usize));
+        let (_, fail, _) = one_from(n, chunked, v["variant"].as_str().unwrap_or(""), prior);
+        return Ok(fail.map(|(k, w)| format!("[{}] {}", k, w)));
+    }
     let (m, fail, _) = one(n, chunked);
     if let Some((k, w)) = fail {
         return Ok(Some(format!("[{}] {}", k, w)));
